@@ -213,76 +213,45 @@ def t7(ctx, prog, T):
     S = ADT(node_adt['path'], 0, 'Node', [SYM('S'), SYM('SC')])
     N = ADT(node_adt['path'], 0, 'Node', [SYM('N'), SYM('NC')])
     try:
-        paths = Interp(prog, hook=opaque_hook(opaque={'insert_back_prioritized', 'has_enough_children', 'has_too_many_children'}), max_steps=600000).paths(f, [S, N, SYM('R')])
+        paths = Interp(prog, hook=opaque_hook(opaque={'insert_back_prioritized'}), max_steps=600000).paths(f, [S, N, SYM('R')])
     except Budget:
         ctx.unrecognised('T7', 'insert_back_prioritized', 'budget', 'too complex for path enumeration', span=f.span)
         return
 
     def who(term):
         """which operator a term talks about: 'S', 'N' or 'L' (the last child of self)"""
-        s = fmt(term)
+        from absint import apps, has_subterm
         if term == SYM('S'):
             return 'S'
         if term == SYM('N'):
             return 'N'
-        if '$SC' in s and ('last' in s or 'slice' in s or 'pop' in s):
-            return 'L'
+        if term[0] == 'adt':
+            return None
+        if has_subterm(term, SYM('SC')):
+            names = {n.split('::')[-1].split('#')[0] for n, _ in apps(term)}
+            if names & {'last', 'last_mut', 'pop'} and not names & {'len', 'is_empty'}:
+                return 'L'
         return None
+
+    ORDERING = {'Less': ('ord', -1), 'Equal': ('ord', 0), 'Greater': ('ord', 1)}
 
     class Unknown(Exception):
         pass
 
-    def ev(term, a):
-        k = term[0]
-        if k == 'c':
-            return term[1]
-        if k == 'sym':
-            if term[1] == 'R':
-                return a['R']
-            raise Unknown(fmt(term))
-        if k == 'adt':
-            if term[3] in ('Some', 'None') and 'Option' in term[1]:
-                return ('opt', term[3], tuple(ev(x, a) for x in term[4]))
-            if 'Operator' in term[1]:
-                return ('op', term[3])
-            raise Unknown(fmt(term))
-        if k == 'app':
-            name = term[1]
-            args = term[2]
-            if name.startswith('binop:'):
-                x, y = ev(args[0], a), ev(args[1], a)
-                op = name.split(':')[1]
-                return {'Lt': x < y, 'Le': x <= y, 'Gt': x > y, 'Ge': x >= y, 'Eq': x == y, 'Ne': x != y}[op]
-            if name.startswith('unop:Not'):
-                return not ev(args[0], a)
-            base = name.split('::')[-1].split('#')[0]
-            if base in ('precedence', 'is_unary', 'is_left_to_right', 'is_leaf', 'is_sequence', 'max_argument_amount'):
-                w = who(args[0])
-                if w is None:
-                    raise Unknown(fmt(term))
-                v = T[base][a[w]]
-                return ('opt', 'Some', (v,)) if base == 'max_argument_amount' and v is not None else (('opt', 'None', ()) if base == 'max_argument_amount' else v)
-            if base == 'has_enough_children':
-                return a['enough']
-            if base == 'is_empty':
-                s = fmt(args[0])
-                if '$SC' in s:
-                    return a['sc_empty']
-                if '$NC' in s:
-                    return a['nc_empty']
-                raise Unknown(fmt(term))
-            if base in ('eq', 'ne') and len(args) == 2:
-                vals = []
-                for x in args:
-                    w = who(x)
-                    vals.append(('op', a[w]) if w else ev(x, a))
-                r = vals[0] == vals[1]
-                return r if base == 'eq' else not r
-            raise Unknown(fmt(term))
-        raise Unknown(fmt(term))
+    def sc_of(term):
+        """'S' / 'N' when the term is the child list of self / of the inserted node"""
+        from absint import has_subterm
+        if has_subterm(term, SYM('SC')):
+            return 'S'
+        if has_subterm(term, SYM('NC')):
+            return 'N'
+        return None
 
-    def comp(term):
-        """compile a term into a function of the assignment (atoms resolved once)"""
+    def comp_d(term, delta=0):
+        """compile a term into a function of the assignment (atoms resolved once); `delta` is the number of elements pushed
+        minus popped on self's child list before the term is evaluated on its path"""
+        def comp(t):
+            return comp_d(t, delta)
         k = term[0]
         if k == 'c':
             v = term[1]
@@ -299,6 +268,9 @@ def t7(ctx, prog, T):
             if 'Operator' in term[1]:
                 v = ('op', term[3])
                 return lambda a: v
+            if term[1].endswith('cmp::Ordering') and term[3] in ORDERING:
+                v = ORDERING[term[3]]
+                return lambda a: v
             raise Unknown(fmt(term))
         if k == 'app':
             name, args = term[1], term[2]
@@ -312,6 +284,12 @@ def t7(ctx, prog, T):
                 x = comp(args[0])
                 return lambda a: not x(a)
             base = name.split('::')[-1].split('#')[0]
+            if base == 'cmp' and len(args) == 2:
+                x, y = comp(args[0]), comp(args[1])
+                return lambda a: ('ord', (x(a) > y(a)) - (x(a) < y(a)))
+            if base == 'discriminant' and len(args) == 1 and args[0][0] == 'app' and args[0][1].split('::')[-1].split('#')[0] == 'cmp':
+                x = comp(args[0])
+                return lambda a: {-1: 255, 0: 0, 1: 1}[x(a)[1]]
             if base in ('precedence', 'is_unary', 'is_left_to_right', 'is_leaf', 'is_sequence', 'max_argument_amount'):
                 w = who(args[0])
                 if w is None:
@@ -320,15 +298,13 @@ def t7(ctx, prog, T):
                 if base == 'max_argument_amount':
                     return lambda a: (('opt', 'Some', (tab[a[w]],)) if tab[a[w]] is not None else ('opt', 'None', ()))
                 return lambda a: tab[a[w]]
-            if base == 'has_enough_children':
-                return lambda a: a['enough']
-            if base == 'is_empty':
-                s_ = fmt(args[0])
-                if '$SC' in s_:
-                    return lambda a: a['sc_empty']
-                if '$NC' in s_:
-                    return lambda a: a['nc_empty']
-                raise Unknown(fmt(term))
+            if base in ('is_empty', 'len') and len(args) == 1:
+                w = sc_of(args[0])
+                if w is None:
+                    raise Unknown(fmt(term))
+                if base == 'len':
+                    return (lambda a: a['sclen'] + delta) if w == 'S' else (lambda a: 0)
+                return (lambda a: a['sclen'] + delta == 0) if w == 'S' else (lambda a: True)
             if base in ('eq', 'ne') and len(args) == 2:
                 subs = []
                 for x in args:
@@ -343,7 +319,13 @@ def t7(ctx, prog, T):
     compiled = []
     try:
         for ret, eff in paths:
-            conds = [(comp(e[2][0]), e[2][1] != C(0)) for e in eff if e[0] == '<branch>']
+            conds = []
+            delta = 0
+            for e in eff:
+                if e[0] == '<branch>':
+                    conds.append((comp_d(e[2][0], delta), e[2][1]))
+                elif e[0].split('::')[-1] in ('pop', 'push') and 'Vec' in e[0] and e[2] and e[2][0] == SYM('SC'):
+                    delta += 1 if e[0].endswith('push') else -1
             calls = [e[0].split('::')[-1] for e in eff if not e[0].startswith('<')]
             if is_adt(ret, 'result::Result', 'Err'):
                 out = 'error'
@@ -362,8 +344,11 @@ def t7(ctx, prog, T):
     def decide(a):
         hits = set()
         for conds, out in compiled:
-            for fn_, want_true in conds:
-                if bool(fn_(a)) != want_true:
+            for fn_, taken in conds:
+                v = fn_(a)
+                if isinstance(v, bool):
+                    v = 1 if v else 0
+                if (v in getattr(taken, 'excluded', (0,))) if taken[0] == 'sym' else (v != taken[1]):
                     break
             else:
                 hits.add(out)
@@ -376,12 +361,12 @@ def t7(ctx, prog, T):
         enter = prec[s] < prec[n] or unary[n] or a['R'] or (prec[s] == prec[n] and not l2r[s] and not l2r[n])
         if not enter or leaf[s]:
             return 'error'
-        if a['enough']:
+        if arity[s] is not None and a['sclen'] == arity[s]:
             if prec[l] < prec[n] or unary[n] or (prec[l] == prec[n] and not l2r[l] and not l2r[n]):
                 return 'descend'
             if leaf[n] or n == 'RootNode':
                 return 'error'
-            if s == 'RootNode' and not a['sc_empty']:
+            if s == 'RootNode' and a['sclen'] != 1:
                 return 'error'
             return 'rotate'
         if arity[n] == 2:
@@ -400,17 +385,18 @@ def t7(ctx, prog, T):
             for l in reps:
                 for nn in reps:
                     for R in (False, True):
-                        for enough in (False, True):
-                            for sc_empty in (False, True):
-                                a = dict(S=s, L=l, N=nn, R=R, enough=enough, sc_empty=sc_empty, nc_empty=True)
-                                n += 1
-                                got = decide(a)
-                                want = ref(a)
-                                if got != {want}:
-                                    bad += 1
-                                    if bad <= 5:
-                                        ctx.violation('T7', 'decision[S=%s,L=%s,N=%s,root=%s,complete=%s]' % (s, l, nn, R, enough), 'decision',
-                                                      'inserting a %s node below a %s node whose last child is %s: the code decides %s, precedence climbing by the documented table requires %s' % (nn, s, l, sorted(got), want), span=f.span)
+                        # the number of children self already has: at most its arity (the insertion procedure itself keeps
+                        # this: it pushes only below an incomplete node, and a rotation keeps the count); unbounded arity: 0..3
+                        for sclen in range(0, (arity[s] if arity[s] is not None else 3) + 1):
+                            a = dict(S=s, L=l, N=nn, R=R, sclen=sclen)
+                            n += 1
+                            got = decide(a)
+                            want = ref(a)
+                            if got != {want}:
+                                bad += 1
+                                if bad <= 5:
+                                    ctx.violation('T7', 'decision[S=%s,L=%s,N=%s,root=%s,complete=%s]' % (s, l, nn, R, arity[s] == sclen), 'decision',
+                                                  'inserting a %s node below a %s node with %d children whose last child is %s: the code decides %s, precedence climbing by the documented table requires %s' % (nn, s, sclen, l, sorted(got), want), span=f.span)
     except Unknown as e:
         ctx.unrecognised('T7', 'insert_back_prioritized', 'condition', 'a branch condition of the insertion procedure is not a function of the operator tables: %s' % e, span=f.span)
         return
